@@ -565,7 +565,10 @@ class ImplEngine(object):
                 r["reason"] = bi.result_reason.value.value if bi.result_reason else None
                 r["msg"] = bi.result_message.value if bi.result_message else None
             out.append(r)
-        return {"results": out}
+        hv = resp.response_header.protocol_version
+        return {"results": out, "_version": hv.major * 10 + hv.minor,
+                "_batch_count": resp.response_header.batch_count.value,
+                "_has_timestamp": resp.response_header.time_stamp is not None}
 
     def dump(self):
         from sqlalchemy.orm import sessionmaker
